@@ -110,6 +110,66 @@ def main():
         w = gen_trace(rng, vs, N, S)
         evs = [ev_parse(), ev_pastify()] + [ev_update(t, sample_at(w, t)) for t in range(N)]
         cases.append(case([dt_obj(phi, S, vs, factory="ltl_online", ltl=True)], evs))
+    # bounds written with units (one-sided suffixes, non-default units, period in another unit): pastify() must keep
+    # the meaning of future-free specifications and delay bounded-future ones by the horizon in samples
+    import c08 as _c08
+    for i in range(n // 5):
+        futfree = rng.random() < 0.4
+        ops = ["not", "and", "or", "onceT", "histT", "sinceT", "once", "prev"] + ([] if futfree else ["evT", "alwT", "untilT", "next"])
+        g = Gen(rng, vars_=("x", "y"), S=1, ops=ops, ivs=[(0, 1), (1, 2), (0, 2), (2, 2), (1, 3)], bool_atoms=False)
+        for _ in range(40):
+            phi = g.formula(rng.choice([1, 2, 2, 3]))
+            if (ops_of(phi) & TIMED) and (futfree or ((ops_of(phi) & FUT) and not past_over_future(phi))):
+                break
+        else:
+            continue
+        vs = vars_of(phi) or ["x"]
+        pnum, punit = rng.choice(_c08.PERIODS)
+        default = rng.choice(["s", "ms", "us"])
+        written, styles = _c08.write_ast(rng, phi, pnum * 10 ** _c08.E[punit], default)
+        o = dt_obj(phi, 1, vs, text="out = " + to_text(written, 1), written=written,
+                   units={"def": default, "pnum": pnum, "pden": 1, "punit": punit}, unit=default, set_period=[pnum, punit, 0.1])
+        N = horizon(phi) + rng.choice([2, 3, 5])
+        w = gen_trace(rng, vs, N, 1, lo=-6, hi=6)
+        evs = [ev_parse(), ev_pastify()] + [ev_update(t, sample_at(w, t)) for t in range(N)]
+        cases.append(case([o], evs, skip=["update.viol"], timeout=8))
+    # modular specifications: one named sub-specification (a shared node) referenced at positions that need different delays
+    from modular import text_with_names
+    for i in range(n // 6):
+        S = 1
+        g = Gen(rng, vars_=("x", "y"), S=S, ops=["not", "and", "or", "prev", "onceT", "histT", "once"], ivs=IVS, bool_atoms=False)
+        q = g.formula(rng.choice([0, 1, 1, 2]))
+        if q["op"] in ("var", "const") or (ops_of(q) & FUT):
+            continue
+        def ref():
+            r_ = rng.random()
+            if r_ < 0.3:
+                return q
+            if r_ < 0.5:
+                return un("next", q)
+            if r_ < 0.75:
+                return un("evT", q, *rng.choice([(0, 1), (1, 2), (2, 2)]))
+            if r_ < 0.9:
+                return un("alwT", q, *rng.choice([(0, 1), (1, 2)]))
+            return un("next", un("next", q))
+        phi = bi(rng.choice(["and", "or", "implies"]), ref(), ref())
+        if rng.random() < 0.4:
+            phi = bi(rng.choice(["and", "or"]), phi, rng.choice([ref(), g.formula(1)]))
+        if not (ops_of(phi) & FUT):
+            continue
+        names = {id(r_): "sub1" for r_ in subformulas(phi) if r_ is q}
+        main_text = text_with_names(phi, S, names)
+        sub_text = "sub1 = " + to_text(q, S)
+        vs = vars_of(phi) or ["x"]
+        o = dt_obj(phi, S, vs)
+        if rng.random() < 0.5:
+            o["subs"] = [sub_text + ";"]; o["text"] = "out = " + main_text
+        else:
+            o["text"] = sub_text + " ; out = " + main_text
+        N = horizon(phi) + rng.choice([2, 3, 5, 8])
+        w = gen_trace(rng, vs, N, S)
+        evs = [ev_parse(), ev_pastify()] + [ev_update(t, sample_at(w, t)) for t in range(N)]
+        cases.append(case([o], evs))
     traces = runner.run_cases(cases)
     vs_, gen, dist = core.validate("C03", traces)
     rep.add_traces(traces, vs_, gen, dist, nontrivial_key=lambda c: c["objs"][0]["text"] + str([e.get("s") for e in c["events"]]))
